@@ -40,23 +40,30 @@ Print Assumptions C05_compiled_equals_interpreted.
    the results are the interpreter's; an error of the site is an error of the interpreter. *)
 Theorem C05_site_equals_interpreter : forall e rho m,
   memo_of np_tables e m -> d5 rho e = true ->
-  res_agree (site np_tables call_guard m rho e) (interp rho e).
+  res_agree (site np_tables call_guard fallback_catches_all m rho e) (interp rho e).
 Proof.
-  exact (eq_ind_r (fun g => forall e rho m, memo_of np_tables e m -> d5 rho e = true ->
-                     res_agree (site np_tables g m rho e) (interp rho e))
+  exact (eq_ind_r (fun ca => forall e rho m, memo_of np_tables e m -> d5 rho e = true ->
+                     res_agree (site np_tables call_guard ca m rho e) (interp rho e))
+          (eq_ind_r (fun g => forall e rho m, memo_of np_tables e m -> d5 rho e = true ->
+                     res_agree (site np_tables g true m rho e) (interp rho e))
                   (site_interp np_tables (eq_refl : tables_ok np_tables = true))
-                  (eq_refl : call_guard = true)).
+                  (eq_refl : call_guard = true))
+          (eq_refl : fallback_catches_all = true)).
 Qed.
 Print Assumptions C05_site_equals_interpreter.
 
 Theorem C05_any_rebinding_history : forall e h,
   Forall (fun rho => d5 rho e = true) h ->
-  Forall2 res_agree (run_history np_tables call_guard None e h) (map (fun rho => interp rho e) h).
+  Forall2 res_agree (run_history np_tables call_guard fallback_catches_all None e h) (map (fun rho => interp rho e) h).
 Proof.
-  exact (eq_ind_r (fun g => forall e h, Forall (fun rho => d5 rho e = true) h ->
-                     Forall2 res_agree (run_history np_tables g None e h) (map (fun rho => interp rho e) h))
-                  (fun e h => history_interp np_tables (eq_refl : tables_ok np_tables = true) e h None I)
-                  (eq_refl : call_guard = true)).
+  exact (eq_ind_r (fun ca => forall e h, Forall (fun rho => d5 rho e = true) h ->
+                     Forall2 res_agree (run_history np_tables call_guard ca None e h) (map (fun rho => interp rho e) h))
+          (eq_ind_r (fun g => forall e h, Forall (fun rho => d5 rho e = true) h ->
+                     Forall2 res_agree (run_history np_tables g true None e h) (map (fun rho => interp rho e) h))
+                  (fun e h => history_stateless np_tables compile_is_stateless (eq_refl : compile_is_stateless = true)
+                                (eq_refl : tables_ok np_tables = true) e h)
+                  (eq_refl : call_guard = true))
+          (eq_refl : fallback_catches_all = true)).
 Qed.
 Print Assumptions C05_any_rebinding_history.
 
@@ -64,16 +71,19 @@ Print Assumptions C05_any_rebinding_history.
    interpreter's result; the call-time admission test turns a rebinding to a non-admitted value
    (string, NumPy scalar, empty array, :undefined ...) into such an exception. *)
 Theorem C05_fallback : forall T g c rho e,
-  run_compiled T g c rho = Err -> site T g (Some c) rho e = interp rho e.
-Proof. exact site_fallback. Qed.
+  run_compiled T g c rho = Err -> site T g fallback_catches_all (Some c) rho e = interp rho e.
+Proof.
+  exact (eq_ind_r (fun ca => forall T g c rho e, run_compiled T g c rho = Err -> site T g ca (Some c) rho e = interp rho e)
+                  site_fallback (eq_refl : fallback_catches_all = true)).
+Qed.
 Print Assumptions C05_fallback.
 
 Theorem C05_guard_falls_back : forall T c rho vs e,
   fetch_args rho (c_syms c) = Some vs -> forallb admit_call vs = false ->
-  site T call_guard (Some c) rho e = interp rho e.
+  site T call_guard true (Some c) rho e = interp rho e.
 Proof.
   exact (eq_ind_r (fun g => forall T c rho vs e, fetch_args rho (c_syms c) = Some vs -> forallb admit_call vs = false ->
-                     site T g (Some c) rho e = interp rho e)
+                     site T g true (Some c) rho e = interp rho e)
                   (fun T c rho vs e F G => site_fallback T true c rho e (guard_rejects T c rho vs F G))
                   (eq_refl : call_guard = true)).
 Qed.
@@ -127,12 +137,22 @@ Qed.
 Theorem C05_memo_type_change_refuted_without_guard :
   exists e rho0 rho c v,
     compile np_tables rho0 e = Some c /\ run_compiled np_tables false c rho = Ok v /\ interp rho e = Err /\
-    site np_tables false (Some c) rho e = Ok v /\ site np_tables true (Some c) rho e = Err.
+    site np_tables false true (Some c) rho e = Ok v /\ site np_tables true true (Some c) rho e = Err.
 Proof.
   exists (EDyad "*" (ESym "x") (ESym "y")), (env2 "x" (VS false (NI 2)) "y" (VS false (NI 3))),
          (env2 "x" (VStr [97; 98]%Z) "y" (VS false (NI 3))).
   eexists. exists (VStr [97; 98; 97; 98; 97; 98]%Z).
   repeat split; vm_compute; reflexivity.
+Qed.
+
+(* with an except clause that does not catch everything, an exception of the compiled function
+   (here: the call-time admission test on a NumPy scalar) surfaces where the interpreter has a value *)
+Theorem C05_fallback_refuted_with_narrow_except :
+  exists e rho0 rho c v, compile np_tables rho0 e = Some c /\ interp rho e = Ok v /\
+    site np_tables true false (Some c) rho e = Err /\ site np_tables true true (Some c) rho e = Ok v.
+Proof.
+  exists (EAdv "+" "/" (ESym "a")), (env1 "a" (V1 [NI 1; NI 2])), (env1 "a" (VS true (NI 3))).
+  eexists. eexists. repeat split; vm_compute; reflexivity.
 Qed.
 
 (* Non-vacuity: a nested expression over a matrix, a vector and a real scalar, compiled while the
